@@ -12,7 +12,7 @@ from .. import kernel as K
 ID = "C01"
 ENGINE = "iosim"
 LEVEL = "exploration"
-BUDGET = {"quick": 60, "thorough": 1200}
+BUDGET = {"quick": 90, "thorough": 1200}
 RUN_TIMEOUT = 90
 SHRINK_TIMEOUT = 90
 SELFTEST_PAIRS = {"quick": 16, "thorough": 40}
